@@ -337,6 +337,14 @@ class PointTier(textgrid_tier.TextgridTier):
                 matchList.append(point)
                 break
 
+        # Report before anything is modified: if the reporter raises,
+        # the tier must be left as it was
+        if len(matchList) != 0 and collisionMode != constants.IntervalCollision.ERROR:
+            collisionReporter(
+                errors.CollisionError,
+                f"Collision warning for ({newPoint}) with items ({matchList}) of tier '{self.name}'",
+            )
+
         if len(matchList) == 0:
             self._entries.append(newPoint)
 
@@ -367,12 +375,6 @@ class PointTier(textgrid_tier.TextgridTier):
 
         if self._entries[-1][0] > self.maxTimestamp:
             self.maxTimestamp = self._entries[-1][0]
-
-        if len(matchList) != 0:
-            collisionReporter(
-                errors.CollisionError,
-                f"Collision warning for ({point}) with items ({matchList}) of tier '{self.name}'",
-            )
 
     def insertSpace(
         self,
